@@ -6,48 +6,77 @@
    Model/LogSpec.v the logical log.  R (Proofs/LogView.v) is the invariant tying
    them together; [views_eq] is equality of ALL views: first/last index, term at
    every index, entries of every range with every size limit (including the error
-   outcomes), entries to save, entries to apply, committed, processed. *)
+   outcomes), entries to save, entries to apply, committed, processed.
+
+   [ops : list op] ranges over EVERY constructor of the operation type: OAppend
+   (leader/raw append), OReplicate (follower append with a conflict at any position),
+   OCommitTo, OGetUpdate / OPersist / OCommit (Update/Commit cycle: savedLogTo,
+   savedSnapshotTo, appliedLogTo, LogReader.ApplySnapshot/Append/SetRange, store
+   save), ORestore (snapshot restore) and OCompact (LogReader.Compact + store
+   removal, also beyond the in-memory marker).  [wf_init] is any restart state
+   (marker, persisted entries, committed); [wf_ops] the negations of the panic
+   guards stated on the logical log only (DESIGN Appendix C). *)
 From DB Require Import Base.Bytes Gen.GenC19 Model.LogSpec Model.LogView Proofs.LogView.
 Open Scope N_scope.
 
+(* For all well-formed operation sequences from every well-formed restart state the
+   faithful model runs without error and ALL its views equal the logical log's. *)
+Theorem logview_refines : forall mi mt ents c limit ops,
+  wf_init mi mt ents c = true ->
+  wf_ops limit (sp_init mi mt ents c) ops = true ->
+  exists w', run (w_init mi mt ents c limit) ops = Ok w' /\
+             views_eq w' (sp_run limit (sp_init mi mt ents c) ops).
+Proof. exact logview_refines_proved. Qed.
+Print Assumptions logview_refines.
+
+(* None of the panics / error returns of inmemory.go, logentry.go, the log part of
+   peer.go and logreader.go is reachable from well-formed operation sequences. *)
+Theorem err_unreachable_under_wf : forall mi mt ents c limit ops,
+  wf_init mi mt ents c = true ->
+  wf_ops limit (sp_init mi mt ents c) ops = true ->
+  (forall t, run (w_init mi mt ents c limit) ops <> Panic t) /\
+  (forall e, run (w_init mi mt ents c limit) ops <> Fail e).
+Proof. exact err_unreachable_under_wf_proved. Qed.
+Print Assumptions err_unreachable_under_wf.
+
+(* Every index that counts as saved holds, in the persistent store, exactly the
+   current entry of the logical log: an entry that was truncated and re-appended is
+   persisted again before it is considered saved. *)
+Theorem reappended_entry_saved_again : forall mi mt ents c limit ops w',
+  wf_init mi mt ents c = true ->
+  wf_ops limit (sp_init mi mt ents c) ops = true ->
+  run (w_init mi mt ents c limit) ops = Ok w' ->
+  let sp' := sp_run limit (sp_init mi mt ents c) ops in
+  forall i, sp_mi sp' < i -> i <= im_saved (el_im (w_el w')) ->
+    exists e, st_get (w_st w') i = Some e /\ sp_get sp' i = Some e /\ e_index e = i.
+Proof. exact saved_entries_persisted_proved. Qed.
+Print Assumptions reappended_entry_saved_again.
+
+(* In every reachable state GetUpdate succeeds (validateUpdate never fires), every
+   entry it hands out for apply is the committed logical entry and is either already
+   saved or handed out for persistence in the same update, and a FastApply update
+   applies saved entries only. *)
+Theorem apply_only_committed_and_handed_to_persist : forall mi mt ents c limit ops w',
+  wf_init mi mt ents c = true ->
+  wf_ops limit (sp_init mi mt ents c) ops = true ->
+  run (w_init mi mt ents c limit) ops = Ok w' ->
+  let sp' := sp_run limit (sp_init mi mt ents c) ops in
+  forall more la, exists ud, get_update w' more la = Ok ud /\
+    (forall e, In e (ud_apply ud) ->
+       e_index e <= el_committed (w_el w') /\ sp_get sp' (e_index e) = Some e /\
+       (e_index e <= im_saved (el_im (w_el w')) \/ In e (ud_save ud))) /\
+    (ud_fast ud = true -> forall e, In e (ud_apply ud) -> e_index e <= im_saved (el_im (w_el w'))).
+Proof. exact apply_only_committed_and_handed_to_persist_proved. Qed.
+Print Assumptions apply_only_committed_and_handed_to_persist.
+
 (* Under the invariant R every view of the faithful model equals the logical
-   log's (the reader/in-memory stitching of term() and getEntries(), limitSize,
-   the LogReader drop rule and the store iteration included).  Unconditional in
-   the state: holds for EVERY model state related to a spec state by R. *)
+   log's; unconditional in the state. *)
 Theorem logview_views_equal_under_invariant : forall w sp, R w sp -> views_eq w sp.
 Proof. exact R_views. Qed.
 Print Assumptions logview_views_equal_under_invariant.
 
-(* PARTIAL (logview_refines): R is established by every (re)start state and proved
-   preserved by leader/raw appends (all three merge() branches: append, replace,
-   truncate-and-append) and commitTo, so for all well-formed sequences of those
-   operations, from every well-formed restart state, the run does not fail and all
-   views equal the logical log's.  MISSING: the per-step preservation lemmas for
-   OReplicate, OGetUpdate/OPersist/OCommit, ORestore and OCompact (R is already
-   stated for them: phases, pending snapshot, cover); until they are proved those
-   operations are covered by the exact differential run (model = code after every
-   op) plus the driver's spec cross-check and the Go monitor, not by a theorem. *)
-Theorem logview_refines_partial : forall mi mt ents c limit ops,
-  wf_init mi mt ents c = true -> forallb core_op ops = true ->
-  wf_ops limit (sp_init mi mt ents c) ops = true ->
-  exists w', run (w_init mi mt ents c limit) ops = Ok w' /\
-             views_eq w' (sp_run limit (sp_init mi mt ents c) ops).
-Proof. exact logview_refines_partial_proved. Qed.
-Print Assumptions logview_refines_partial.
-
-(* PARTIAL (err_unreachable_under_wf): same operation set as above; no panic and no
-   error value is reachable. *)
-Theorem err_unreachable_under_wf_partial : forall mi mt ents c limit ops,
-  wf_init mi mt ents c = true -> forallb core_op ops = true ->
-  wf_ops limit (sp_init mi mt ents c) ops = true ->
-  (forall t, run (w_init mi mt ents c limit) ops <> Panic t) /\
-  (forall e, run (w_init mi mt ents c limit) ops <> Fail e).
-Proof. exact err_unreachable_under_wf_partial_proved. Qed.
-Print Assumptions err_unreachable_under_wf_partial.
-
-(* reappended_entry_saved_again, step-local half (complete, every state):
-   merge() with a first new index at or below the last in-memory index leaves
-   savedTo strictly below it, so the re-appended entries are in entriesToSave again *)
+(* step-local facts, every state: merge() with a first new index at or below the
+   last in-memory index leaves savedTo strictly below it ... *)
 Theorem merge_truncation_lowers_saved :
   forall im e0 rest im',
     im_merge im (e0 :: rest) = Ok im' ->
@@ -57,7 +86,7 @@ Theorem merge_truncation_lowers_saved :
 Proof. exact merge_truncation_lowers_saved_proved. Qed.
 Print Assumptions merge_truncation_lowers_saved.
 
-(* ... and savedLogTo only advances if index and term still match (complete, every state) *)
+(* ... and savedLogTo only advances if index and term still match *)
 Theorem saved_log_to_only_on_match :
   forall im i t im',
     im_saved_log_to im i t = Ok im' ->
@@ -67,9 +96,24 @@ Theorem saved_log_to_only_on_match :
 Proof. exact saved_log_to_only_on_match_proved. Qed.
 Print Assumptions saved_log_to_only_on_match.
 
-(* PARTIAL (reappended_entry_saved_again, global half): every index that counts as
-   saved holds, in the persistent store, exactly the current entry of the logical
-   log.  Proved for the operation set of logview_refines_partial; MISSING: as there. *)
+(* The earlier statements restricted to appends and commitTo ([core_op]) are kept
+   visible; they are now corollaries of the full theorems above. *)
+Theorem logview_refines_partial : forall mi mt ents c limit ops,
+  wf_init mi mt ents c = true -> forallb core_op ops = true ->
+  wf_ops limit (sp_init mi mt ents c) ops = true ->
+  exists w', run (w_init mi mt ents c limit) ops = Ok w' /\
+             views_eq w' (sp_run limit (sp_init mi mt ents c) ops).
+Proof. exact logview_refines_partial_proved. Qed.
+Print Assumptions logview_refines_partial.
+
+Theorem err_unreachable_under_wf_partial : forall mi mt ents c limit ops,
+  wf_init mi mt ents c = true -> forallb core_op ops = true ->
+  wf_ops limit (sp_init mi mt ents c) ops = true ->
+  (forall t, run (w_init mi mt ents c limit) ops <> Panic t) /\
+  (forall e, run (w_init mi mt ents c limit) ops <> Fail e).
+Proof. exact err_unreachable_under_wf_partial_proved. Qed.
+Print Assumptions err_unreachable_under_wf_partial.
+
 Theorem reappended_entry_saved_again_partial : forall mi mt ents c limit ops w',
   wf_init mi mt ents c = true -> forallb core_op ops = true ->
   wf_ops limit (sp_init mi mt ents c) ops = true ->
@@ -81,16 +125,25 @@ Proof. exact saved_entries_persisted_partial_proved. Qed.
 Print Assumptions reappended_entry_saved_again_partial.
 
 (* non-vacuity: a restart state with a marker and three persisted entries, then a
-   truncating append above commit, an extending append and a commit: well-formed,
-   runs, and index 6 (re-appended with term 3) has to be saved again *)
-Example c19_witness :
+   sequence using EVERY constructor: a follower conflict above commit (index 8
+   re-appended with term 3), two Update/Commit cycles with apply lag, a compaction
+   beyond the in-memory marker (marker 8, compact to 10), a snapshot restore with
+   its persistence, appends and commit advances.  It is well-formed and runs. *)
+Example c19_witness_all_ops :
   let ents := [mkE 6 1 1 10; mkE 7 1 2 0; mkE 8 2 3 5] in
-  let ops := [OAppend [mkE 7 3 4 0; mkE 8 3 5 1]; OAppend [mkE 9 4 6 0]; OCommitTo 8] in
-  wf_init 5 1 ents 6 = true /\ forallb core_op ops = true /\
-  wf_ops 1000 (sp_init 5 1 ents 6) ops = true /\
+  let ops := [OReplicate 7 1 8 [mkE 8 3 4 0; mkE 9 3 5 1]; OGetUpdate true 5; OPersist; OCompact 5; OCommit;
+              OAppend [mkE 10 3 6 0; mkE 11 3 7 0]; OCommitTo 11; OGetUpdate true 5; OPersist; OCommit; OCompact 10;
+              OReplicate 11 3 11 [mkE 12 4 8 0]; OGetUpdate false 11; OPersist; OCommit;
+              ORestore 20 4; OAppend [mkE 21 4 9 0]; OGetUpdate true 11; OPersist; OCompact 20; OCommit; OCommitTo 21] in
+  wf_init 5 1 ents 6 = true /\ wf_ops 1000 (sp_init 5 1 ents 6) ops = true /\
+  (match run (w_init 5 1 ents 6 1000) (firstn 11 ops) with
+   | Ok w => im_marker (el_im (w_el w)) = 8 /\ lr_marker (w_lr w) = 10 /\ el_first (w_el w) (w_lr w) = 11
+   | _ => False end) /\
+  (match run (w_init 5 1 ents 6 1000) (firstn 1 ops) with
+   | Ok w => el_to_save (w_el w) = [mkE 8 3 4 0; mkE 9 3 5 1] /\ im_saved (el_im (w_el w)) = 7
+   | _ => False end) /\
   (match run (w_init 5 1 ents 6 1000) ops with
-   | Ok w => el_to_save (w_el w) = [mkE 7 3 4 0; mkE 8 3 5 1; mkE 9 4 6 0]
-             /\ im_saved (el_im (w_el w)) = 6 /\ el_committed (w_el w) = 8
+   | Ok w => el_last (w_el w) (w_lr w) = 21 /\ el_committed (w_el w) = 21 /\ el_to_save (w_el w) = []
    | _ => False end).
 Proof. vm_compute. repeat split; reflexivity. Qed.
 
